@@ -15,7 +15,8 @@ LEVEL = "exploration"
 RULE = ("operation histories over 2 sessions x 2 regions: seed grants delivered through real Seed request/response flows "
         "(1-6 names with fresh UUID-style URLs, repeated names, re-granted identical URLs, non-URL values, asset caps, requests "
         "listing proxy-only names adjacent or interleaved), register_cap NORMAL/TEMPORARY, register_wrapper_cap, "
-        "register_proxy_cap (repeated), lookups by URL (base + suffix '', '/x', '?a=b') and by name, compared after every step "
+        "register_proxy_cap (repeated), circuits coming up and being torn down, re-announced seeds, global asset URLs, URLs ending in '/' or "
+        "carrying a query, grants of nothing; lookups by URL (base + suffix '', '/x', '?a=b', 'item', '&p=2') and by name, compared after every step "
         "with a prepend-on-add model.  A 10% class of prefix-related / identical URLs is only checked for validity (one of the "
         "matching entries).  Non-trivial = history with >= 2 grants of one name or a temporary/proxy-only cap; distinct by content.")
 ASSUMPTIONS = [
